@@ -3,19 +3,34 @@ import collections, itertools, random, subprocess
 from concurrent.futures import ThreadPoolExecutor
 from engine.core import diff_streams, VERIF
 
-REQUIRED_LATER = [
+REQUIRED = [
+    "Pixman.Props.C17.counted_spec",
+    "Pixman.Props.C17.create_accounting",
     "Pixman.Props.C17.step_accounting",
     "Pixman.Props.C17.run_accounting",
-    "Pixman.Props.C17.lookup_terminates",
     "Pixman.Props.C17.step_keeps_empty_slot",
+    "Pixman.Props.C17.run_keeps_empty_slot",
+    "Pixman.Props.C17.lookup_terminates",
+    "Pixman.Props.C17.findFree_terminates",
+    "Pixman.Props.C17.findGlyph_terminates",
+    "Pixman.Props.C17.step_never_hangs",
     "Pixman.Props.C17.run_never_hangs",
+    "Pixman.Props.C17.run_length",
     "Pixman.Props.C17.insert_refused_when_full",
+    "Pixman.Props.C17.insert_succeeds_when_not_full",
+    "Pixman.Props.C17.thaw_evicts_to_low",
+    "Pixman.Props.C17.lookup_is_map_lookup",
+    "Pixman.Props.C17.lookup_finds_live",
+    "Pixman.Props.C17.lookup_absent",
+    "Pixman.Props.C17.fresh_iff_lookup_absent",
+    "Pixman.Props.C17.create_refines",
+    "Pixman.Props.C17.step_refines_map",
+    "Pixman.Props.C17.run_refines_map",
+    "Pixman.Props.C17.entry_disappears_only_by_remove_or_thaw",
 ]
 
 M64 = (1 << 64) - 1
 
-
-REQUIRED = []
 
 
 def wang(font, key):
@@ -94,6 +109,201 @@ def oracle(line, out, hs, high, low):
                 if want is None or got != want:
                     return f"lookup at step {i} returned entry {got}, the map holds {want}"
     return None
+
+
+# ---------------------------------------------------------------- phase 2: glyph drawing
+OP_NAMES = ["CLEAR", "SRC", "DST", "OVER", "OVER_REVERSE", "IN", "IN_REVERSE", "OUT", "OUT_REVERSE",
+            "ATOP", "ATOP_REVERSE", "XOR", "ADD", "SATURATE"]
+
+
+def op_class(op):
+    return ("clear-src-dst" if op <= 2 else "over" if op <= 4 else "in-out" if op <= 8 else
+            "atop-xor" if op <= 11 else "add" if op == 12 else "saturate")
+
+
+def parse_draw(line):
+    t = line.split()
+    k = [1]
+
+    def nx():
+        v = t[k[0]]; k[0] += 1; return v
+    r = {"entry": nx(), "op": int(nx()), "dfmt": nx(), "dw": int(nx()), "dh": int(nx())}
+    nclip = int(nx())
+    r["clip"] = None if nclip < 0 else [[int(nx()) for _ in range(4)] for _ in range(nclip)]
+    kind = nx()
+    r["src"] = [kind] + ([int(nx()) for _ in range(4)] if kind == "solid" else [nx(), int(nx()), int(nx()), int(nx())])
+    r["sx"], r["sy"], r["dx"], r["dy"] = (int(nx()) for _ in range(4))
+    r["mfmt"] = nx()
+    r["mx"], r["my"], r["mw"], r["mh"] = (int(nx()) for _ in range(4))
+    r["pixseed"] = int(nx())
+    ng = int(nx())
+    r["glyphs"] = [[nx(), int(nx()), int(nx()), int(nx()), int(nx())] for _ in range(ng)]
+    nr = int(nx())
+    r["run"] = [[int(nx()), int(nx()), int(nx())] for _ in range(nr)]
+    return r
+
+
+def format_draw(r):
+    o = ["draw", r["entry"], r["op"], r["dfmt"], r["dw"], r["dh"]]
+    o.append(-1 if r["clip"] is None else len(r["clip"]))
+    for c in r["clip"] or []:
+        o += c
+    o += r["src"] + [r["sx"], r["sy"], r["dx"], r["dy"], r["mfmt"], r["mx"], r["my"], r["mw"], r["mh"], r["pixseed"]]
+    o.append(len(r["glyphs"]))
+    for g in r["glyphs"]:
+        o += g
+    o.append(len(r["run"]))
+    for g in r["run"]:
+        o += g
+    return " ".join(str(x) for x in o)
+
+
+def glyph_format_class(f):
+    if f in ("a1", "a4", "a8", "a8r8g8b8"):
+        return f
+    if f in ("x4a4",):
+        return "other-alpha-only"
+    if f.startswith(("x", "r", "b")) and not f.endswith(("a8", "a8r8g8b8")) and "a" not in f.replace("float", ""):
+        return "alpha-less"
+    return "other-alpha+colour"
+
+
+def draw_signature(r):
+    fm = sorted({glyph_format_class(r["glyphs"][g[0]][0]) for g in r["run"]})
+    clip = "no-clip" if r["clip"] is None else "empty-clip" if not r["clip"] else "one-rect-clip" if len(r["clip"]) == 1 else "multi-rect-clip"
+    return (f"{'composite_glyphs_no_mask' if r['entry'] == 'N' else 'composite_glyphs'}|{'+'.join(fm)}|{op_class(r['op'])}"
+            f"|{r['src'][0]}-source|{clip}")
+
+
+def draw_exec(ctx, exe, lines, env, tag):
+    d = ctx.scratch / "draw"
+    d.mkdir(exist_ok=True)
+    ops, out = d / f"{tag}.ops", d / f"{tag}.out"
+    ops.write_text("\n".join(lines) + "\n")
+    subprocess.run([str(exe), "exec", str(ops), str(out)], env=env, stdout=subprocess.DEVNULL, stderr=subprocess.DEVNULL)
+    return out.read_text().split("\n")[:len(lines)]
+
+
+def draw_shrink(ctx, exe, line, env):
+    """Greedy reduction of a mismatching request (the pixel contents stay tied to pixseed, so only
+    reductions that keep the pixel streams aligned are tried: run entries, clip, trailing glyphs)."""
+    r = parse_draw(line)
+
+    def bad(c):
+        return draw_exec(ctx, exe, [format_draw(c)], env, "shrink")[0].startswith("MISMATCH")
+    changed = True
+    while changed:
+        changed = False
+        for i in range(len(r["run"])):
+            if len(r["run"]) > 1:
+                c = dict(r, run=r["run"][:i] + r["run"][i + 1:])
+                if bad(c):
+                    r, changed = c, True
+                    break
+        if not changed and r["clip"] is not None:
+            c = dict(r, clip=None)
+            if bad(c):
+                r, changed = c, True
+        if not changed and r["clip"] and len(r["clip"]) > 1:
+            for i in range(len(r["clip"])):
+                c = dict(r, clip=r["clip"][:i] + r["clip"][i + 1:])
+                if bad(c):
+                    r, changed = c, True
+                    break
+        if not changed:
+            used = max(g[0] for g in r["run"])
+            if used + 1 < len(r["glyphs"]):
+                c = dict(r, glyphs=r["glyphs"][:used + 1])
+                if bad(c):
+                    r, changed = c, True
+    return format_draw(r)
+
+
+def run_draw(ctx, b):
+    """Glyph drawing versus per-glyph / mask reference composition on the real library."""
+    import os
+    quick = ctx.tier == "quick"
+    exe = ctx.cc("glyphdraw", ["glyphdraw.c"], b, extra=["-w"])
+    d = ctx.scratch / "draw"
+    d.mkdir(exist_ok=True)
+    nchunks, per = (4, 10000) if quick else (16, 60000)
+    chunks = []
+    for i in range(nchunks):
+        ops = d / f"gen{i}.ops"
+        subprocess.run([str(exe), "gen", str(ctx.seed * 1000 + i), str(per), str(ops)])
+        chunks.append([l for l in ops.read_text().split("\n") if l])
+    corpus = VERIF / "corpus" / "glyph" / "draw.txt"
+    if corpus.exists():
+        chunks.append([l for l in corpus.read_text().splitlines() if l.startswith(("draw ", "spot "))])
+    # systematic absolute spot checks (expected pixels computed without pixman)
+    spots = d / "spots.ops"
+    subprocess.run([str(exe), "spots", str(spots)])
+    chunks.append([l for l in spots.read_text().split("\n") if l])
+    chains = [("default", None), ("generic-only", "fast mmx sse2 ssse3")]
+    jobs = []
+    for cname, dis in chains:
+        env = dict(os.environ)
+        env.pop("PIXMAN_DISABLE", None)
+        if dis:
+            env["PIXMAN_DISABLE"] = dis
+        for i, lines in enumerate(chunks):
+            jobs.append((cname, env, i, lines))
+
+    def one(job):
+        cname, env, i, lines = job
+        return job, draw_exec(ctx, exe, lines, env, f"{cname}{i}")
+    with ThreadPoolExecutor(max_workers=8) as ex:
+        results = list(ex.map(one, jobs))
+    total = 0
+    nontriv = set()
+    hist = collections.Counter()
+    mfh = collections.Counter()
+    groups = collections.OrderedDict()
+    sample = None
+    for (cname, env, i, lines), outs in results:
+        for l, o in zip(lines, outs):
+            total += 1
+            if o.startswith("ok"):
+                if cname == "default":
+                    t = l.split()
+                    if o.split()[2] != "0":
+                        nontriv.add(l)
+                        hist[f"{t[0]}:{t[1]}:{OP_NAMES[int(t[2])]}"] += 1
+                        if t[0] == "draw" and (sample is None or len(l) < len(sample)):
+                            sample = l
+                        if t[0] == "draw" and t[1] == "M":
+                            mfh[parse_draw(l)["mfmt"]] += 1
+                continue
+            if l.startswith("spot "):
+                t = l.split()
+                sig = f"spot|{'composite_glyphs_no_mask' if t[1] == 'N' else 'composite_glyphs|mask ' + t[3]}|{OP_NAMES[int(t[2])]}"
+            else:
+                r = parse_draw(l) if l.startswith("draw ") and not o.startswith("bad") else None
+                sig = (draw_signature(r) if r else "glyphdraw|bad-request") + ("" if o.startswith("MISMATCH") else "|" + o.split()[0])
+            groups.setdefault(sig, []).append((cname, env, l, o))
+    reported = set()
+    for sig, items in list(groups.items())[:8]:
+        cname, env, l, o = min(items, key=lambda it: len(it[2]))
+        small = draw_shrink(ctx, exe, l, env) if o.startswith("MISMATCH") else l
+        o2 = draw_exec(ctx, exe, [small], env, "final")[0]
+        if o.startswith("MISMATCH"):
+            sig = draw_signature(parse_draw(small))     # glyph formats of the shrunken run
+        if sig in reported:
+            continue
+        reported.add(sig)
+        ctx.violation({"kind": "glyph-draw", "request": small, "original_request": l,
+                       "decoded": parse_draw(small) if small.startswith("draw ") else None,
+                       "implementation_chain": cname, "PIXMAN_DISABLE": env.get("PIXMAN_DISABLE", ""),
+                       "result": o2, "count_in_run": len(items),
+                       "how_to_replay": "build harness/glyphdraw.c against libpixman; glyphdraw exec ops.txt out.txt "
+                                        "(one request per line; format in the header of harness/glyphdraw.c)"},
+                      signature=sig,
+                      what=("glyph drawing differs from the absolute expectation (colour glyph through a white source): " if l.startswith("spot ")
+                            else "glyph drawing differs from the reference composition (per-glyph composite / ADD-accumulated mask): ") + o2,
+                      tag="draw")
+    ctx.extra["glyph_drawing_mask_formats"] = dict(mfh)
+    return total, len(nontriv), dict(hist), sample
+
 
 
 def run(ctx):
@@ -183,14 +393,28 @@ def run(ctx):
         nontriv += len(seen)
         if lines:
             samples.append(min((l for l in lines if len(l.split()) > 8), key=len, default=lines[0]))
-    ctx.cov["evaluations"] = total
-    ctx.cov["distinct_nontrivial"] = nontriv
+    dtotal, dnontriv, dhist, dsample = run_draw(ctx, b)
+    ctx.cov["evaluations"] = total + dtotal
+    ctx.cov["distinct_nontrivial"] = nontriv + dnontriv
     ctx.cov["traces_validated_against_impl"] = total
+    ctx.extra["cache_histories"] = {"evaluations": total, "distinct_nontrivial": nontriv}
+    ctx.extra["glyph_drawing"] = {"evaluations": dtotal, "distinct_nontrivial": dnontriv,
+                                  "implementation_chains": ["default", "PIXMAN_DISABLE=fast mmx sse2 ssse3"],
+                                  "drawn_by_entry_and_operator": dhist}
     ctx.cov["rule"] = ("cache histories: exhaustive over {F,T,I,L,R}x keys up to a fixed length at table sizes 4 and 8 (water-mark hook), "
                        "random insertion-heavy histories (incl. U = glyph drawn) at sizes 4..32 and the default size; keys chosen to "
                        "collide; each history replayed through the Lean model (results, counters, table slots, MRU order compared) and "
-                       "through an abstract-map oracle; non-trivial = distinct history with an insert and a later lookup/remove")
-    ctx.cov["samples"] = samples[:4]
+                       "through an abstract-map oracle; non-trivial = distinct history with an insert and a later lookup/remove. "
+                       "glyph drawing: random requests (glyph formats a1/a4/a8/a8r8g8b8 component-alpha plus 8% unusual ones, "
+                       "33 mask formats for pixman_composite_glyphs (alpha+colour = component-alpha mask, alpha-only, alpha-less), "
+                       "2010 absolute spot checks (single-channel colour glyph through a white source must give that pure colour), "
+                       "sizes 1..12, origins -6..14, "
+                       "positions inside/straddling/outside, clip regions of 0..4 rectangles, operators 0..13, solid and bits sources "
+                       "with every repeat mode, 10 destination formats) through pixman_composite_glyphs_no_mask and "
+                       "pixman_composite_glyphs, destination bytes (with guard rows) compared with the reference composition built "
+                       "from pixman_image_composite32, under the default implementation chain and with fast/mmx/sse2/ssse3 disabled; "
+                       "non-trivial = distinct request whose destination changed")
+    ctx.cov["samples"] = samples[:3] + ([dsample] if dsample else [])
     ctx.extra["operation_histogram"] = dict(hist)
     ctx.extra["table_sizes"] = [c[0] for c in configs]
     # group findings
@@ -209,3 +433,40 @@ def run(ctx):
         ctx.broken_obligations_verdict(broken, "glyph-cache histories (exhaustive small scope + random) found no failing input")
     ctx.assumptions += ["histories insert a key only while it is absent for the abstract-map oracle (duplicates are compared with the model only)",
                         "no allocation failure (C15)"]
+
+
+def replay(ctx, path):
+    """Re-run one recorded request (cache history or drawing request) on the current /repo."""
+    import json, os
+    from pathlib import Path
+    obj = json.loads(Path(path).read_text())
+    b = ctx.build_pixman("plain")
+    if obj.get("kind") == "glyph-draw":
+        exe = ctx.cc("glyphdraw", ["glyphdraw.c"], b, extra=["-w"])
+        env = dict(os.environ)
+        env.pop("PIXMAN_DISABLE", None)
+        if obj.get("PIXMAN_DISABLE"):
+            env["PIXMAN_DISABLE"] = obj["PIXMAN_DISABLE"]
+        o = draw_exec(ctx, exe, [obj["request"]], env, "replay")[0]
+        ctx.cov["evaluations"] = 1
+        if not o.startswith("ok"):
+            ctx.violation(dict(obj, result=o), signature=obj.get("signature"), what="glyph drawing differs from the reference composition: " + o, tag="draw")
+        return
+    line = obj["request"]
+    hs, high, low = (int(x) for x in line.split()[1:4])
+    exe = ctx.cc(f"glyph{hs}", ["glyph.c"], b,
+                 extra=[f"-DPIXMAN_VERIF_GLYPH_HIGH_WATER={high}", f"-DPIXMAN_VERIF_GLYPH_LOW_WATER={low}", "-w"]
+                 if hs != 32768 else ["-w"])
+    d = ctx.scratch / "replay"
+    d.mkdir(exist_ok=True)
+    ops, impl, model = d / "ops.txt", d / "impl.txt", d / "model.txt"
+    ops.write_text(line + "\n")
+    subprocess.run([str(exe), "exec", str(ops), str(impl)], stderr=subprocess.DEVNULL)
+    ctx.lean_obligations("Pixman.Props.C17", [])
+    ctx.pixdrv("glyph", ops, model)
+    a, m = impl.read_text().strip(), model.read_text().strip()
+    ctx.cov["evaluations"] = 1
+    why = oracle(line, a, hs, high, low)
+    if why or a != m:
+        ctx.violation(dict(obj, implementation=a, model=m, oracle=why), signature=obj.get("signature"),
+                      what=why or "model and implementation differ", tag=f"hs{hs}")
